@@ -102,7 +102,9 @@ func TestSim(t *testing.T) {
 	k.NoSync = spec.P("race", "") == "1"
 	synctest.Test(t, func(t *testing.T) {
 		w := k.Boot(spec)
-		w.KeepLog = os.Getenv("VERIF_LOG") != ""
+		// always kept: whether the log is formatted must not change what is
+		// allocated during the run (maps keyed by pointers hash addresses)
+		w.KeepLog = true
 		w.DebugDraws = os.Getenv("VERIF_DEBUG_DRAWS") != ""
 		w.DebugY = os.Getenv("VERIF_DEBUG_Y") != ""
 		r := h.NewRun(w)
@@ -184,13 +186,13 @@ func result(r *h.Run, rtSeed uint64) *h.Result {
 		nf += n
 	}
 	res.Nontrivial = nf > 0 || len(w.Choices()) > 0 || len(w.Spec.Triggers) > 0
-	if os.Getenv("VERIF_CHOICES") != "" || res.Verdict == "violation" {
+	if os.Getenv("VERIF_CHOICES") == "1" || res.Verdict == "violation" {
 		res.Choices = w.Choices()
 	}
-	if w.KeepLog {
+	if os.Getenv("VERIF_LOG") == "1" {
 		res.Log = w.Log
 	}
-	if os.Getenv("VERIF_SAMPLE") != "" {
+	if os.Getenv("VERIF_SAMPLE") == "1" {
 		n := len(w.Events)
 		if n > 40 {
 			n = 40
